@@ -417,7 +417,7 @@ fn gen_part2(thorough: bool, rng: &mut Rng, out: &mut dyn FnMut(String)) {
     }
     // ---- 7c. flat insert of very many (index, value) pairs: 1000 … 8193 directly, 16 385 … 70 000 (beyond 65 536) through the reference
     {
-        let mut plans: Vec<(usize, usize, usize, bool)> = vec![(4, 1000, 5, true), (10, 1001, 3, true), (100, 4097, 11, true), (4, 8193, 5, true), (16, 16385, 7, false), (4, 32769, 5, false), (4, 70000, 5, false), (100, 65537, 9, false)];
+        let mut plans: Vec<(usize, usize, usize, bool)> = vec![(4, 1000, 5, true), (10, 1001, 3, true), (100, 4097, 11, true), (4, 8193, 5, true), (16, 16385, 7, false), (4, 32769, 5, false), (4, 70000, 5, false), (100, 68000, 9, false)];
         if thorough { plans.extend([(4, 65536, 5, false), (4, 65537, 2, false), (1000, 66000, 1001, false), (1, 65600, 1, false), (4, 16385, 5, true), (4, 131073, 5, false)]); }
         for (n, k, pool, direct) in plans {
             let a = tag(&[n]);
